@@ -600,6 +600,8 @@ func (m *Manager) rotateWAL() error {
 	// rotating, so once its lock is obtained no further entry can be stamped from it.
 	if currentWAL != nil {
 		newWAL.UpdateNextSequence(currentWAL.GetNextSequence())
+		// Whoever observes the log (replication) goes on observing the new file
+		currentWAL.HandOverObservers(newWAL)
 	}
 
 	verifhook.Point("rotate.new_wal")
